@@ -115,6 +115,19 @@ def evaluate(case, out, v):
             # tempo changes are made by tasks running on that clock: the
             # change happens at the task's logical time
             tl[h['clock']].change(h['L'], h['tempo'], h['n'])
+    # tempo changes made by caller threads: [(n of start marker, n of the
+    # record, clock)]; a scheduling call of another thread on that clock
+    # recorded in between may have seen the old or the new tempo
+    spans = []
+    open_ = {}
+    for h in hist:
+        if h['ev'] == 'tempo_start':
+            open_[(h['who'], h['clock'])] = h['n']
+        elif h['ev'] in ('tempo', 'not_running') and (
+                h['who'], h.get('clock')) in open_:
+            n0 = open_.pop((h['who'], h['clock']))
+            if not str(h['who']).startswith('task'):
+                spans.append((n0, h['n'], h['clock']))
     labels = set()
     pending = {}          # (task, clock) -> dict
     done_invs = {}        # clock -> [(due, n_call, n_inv, T, t_call, tid, who)]
@@ -154,6 +167,8 @@ def evaluate(case, out, v):
                 labels.add('moved_pending_task')
             pending[(tid, clock)] = dict(
                 clock=clock, key=key, n=h['n'], t_call=t_call, who=h['who'],
+                fuzzy=any(a < h['n'] < b and c == clock
+                          for a, b, c in spans),
                 # AppClock.sched is two locked regions (queue, then notify):
                 # a clear() by another thread at the same virtual instant
                 # may have come between them although it was recorded first
@@ -169,6 +184,12 @@ def evaluate(case, out, v):
                            f'task {tid} on {clock} ran at {float(T)} (its '
                            f'invocation {h["k"]}) with no scheduling pending')
                 continue
+            if p.get('fuzzy') and isinstance(clock, int) \
+                    and h.get('beats') is not None:
+                # scheduled while a caller thread was changing this clock's
+                # tempo: the beat it was scheduled for is read back
+                p['key'] = F(h['beats'])
+                labels.add('sched_during_tempo_change')
             due = to_secs(clock, p['key'])
             if T < due:
                 v.fail('invoked_early',
@@ -358,7 +379,7 @@ def cases(draw):
             t['routine'] = True
             if rets == [True]:
                 t['rets'] = ['hang']
-        if depth == 0 and isinstance(on, int) and draw(st.booleans()):
+        if depth == 0 and on == 0 and draw(st.booleans()):
             # tempo change from a task of that clock, others asleep on it
             t['do'] = [['tempo', on, draw(st.sampled_from([0.5, 1, 2, 4]))]]
         elif depth == 0 and draw(st.integers(0, 3)) == 0:
@@ -406,6 +427,12 @@ def cases(draw):
                 if c not in refs:
                     continue
                 ops.append(['sched', c, draw(st.sampled_from(DELTAS)), tid])
+            elif k == 11 and is_main and 1 in refs:
+                # the main thread changes a tempo while the clock sleeps (its
+                # logical time is the physical present). Only clock 1, whose
+                # tasks never change its tempo, and only this one thread:
+                # two tempo changes in flight at once have no defined order
+                ops.append(['tempo', 1, draw(st.sampled_from([0.5, 1, 2, 4]))])
             elif k == 10 and nclocks and is_main and not stopped[0]:
                 # the last TempoClock is used by the main thread only, so
                 # that stop() does not race with calls from other threads
